@@ -703,24 +703,62 @@ def fallback_strlcpy(P, R, rule):
             return st
         before, _, _, _ = f.forward((0, None), on_event, on_edge)
 
-        def bound(e, st):
-            """upper bound of e as an offset from L, or None"""
-            d, ub = st
+        from .model import rel as _rel
+
+        def bound(e, st, ubs=None, depth=0):
+            """upper bound of e as an offset from L (the size the function was called with), or None.  Looks through
+            locals with one definition and through `a < b ? a : b` (each arm judged under the condition that selects it)."""
+            d, ub0 = st
+            if ubs is None:
+                ubs = {v: ub0 for v in srclen} if ub0 is not None else {}
+            while isinstance(e, dict) and e.get('k') in ('cast', 'paren'):
+                e = e.get('e')
+            if not isinstance(e, dict) or d is None or depth > 6:
+                return None
+            if e.get('k') == 'cond':
+                def refine(r_):
+                    u2 = dict(ubs)
+                    if r_ and _iv(r_[0]) and r_[1] in ('<', '<='):
+                        b_ = bound(r_[2], st, ubs, depth + 1)
+                        if isinstance(b_, int):
+                            nb_ = b_ - 1 if r_[1] == '<' else b_
+                            u2[r_[0]['name']] = min(u2.get(r_[0]['name'], nb_), nb_)
+                    if r_ and _iv(r_[2]) and r_[1] in ('>', '>='):
+                        b_ = bound(r_[0], st, ubs, depth + 1)
+                        if isinstance(b_, int):
+                            nb_ = b_ - 1 if r_[1] == '>' else b_
+                            u2[r_[2]['name']] = min(u2.get(r_[2]['name'], nb_), nb_)
+                    return u2
+                bt = bound(e.get('t'), st, refine(_rel(e.get('c'), True)), depth + 1)
+                bf = bound(e.get('f'), st, refine(_rel(e.get('c'), False)), depth + 1)
+                if isinstance(bt, int) and isinstance(bf, int):
+                    return max(bt, bf)
+                return None
             lf = _rules.linform(e)
-            if lf is None or d is None:
+            if lf is None:
                 return None
             tot = lf[1]
+            rel_terms = 0
             for k_, v in lf[0].items():
-                if k_ == lenp and v == 1:
-                    tot += d
-                elif k_ in srclen and v == 1 and ub is not None:
-                    tot += ub
-                else:
+                if v != 1:
                     return None
-            # exactly one L-relative term
-            terms = [k_ for k_ in lf[0]]
-            if len(terms) != 1:
-                return None if terms else ('const', lf[1])
+                if k_ == lenp:
+                    tot += d
+                    rel_terms += 1
+                elif k_ in ubs:
+                    tot += ubs[k_]
+                    rel_terms += 1
+                else:
+                    sd = f.single_def(k_) if k_ not in f.params else None
+                    if not (sd and isinstance(sd[1], dict)):
+                        return None
+                    b_ = bound(sd[1], st, ubs, depth + 1)
+                    if not isinstance(b_, int):
+                        return None
+                    tot += b_
+                    rel_terms += 1
+            if rel_terms != 1:
+                return None if rel_terms else ('const', lf[1])
             return tot
         for t in f.sites():
             if t.ev['k'] == 'call' and t.ev.get('callee') in ('memcpy', 'memmove', 'strncpy') and t.ev['args'] and _iv(t.ev['args'][0], dst):
